@@ -140,11 +140,11 @@ def loadFilesWith (rec : Repo → Nat → Params → Except Err Repo) :
     Repo → List Nat → Option Params → Except Err Repo
   | repo, [], _ => .ok repo
   | repo, g :: gs, p =>
-    if has repo g then loadFilesWith rec repo gs p           -- local_models / all_models: reuse
-    else
-      match p with
-      | none => .error .noParams
-      | some mp =>
+    match p with
+    | none => .error .noParams                                 -- first statement of `load_model`: the assert
+    | some mp =>
+      if has repo g then loadFilesWith rec repo gs p           -- local_models / all_models: reuse
+      else
         match rec repo g mp with
         | .error e => .error e
         | .ok repo' => loadFilesWith rec repo' gs p
